@@ -215,6 +215,40 @@ def run_cyclic(ctx, n):
         ctx.case(["lae-cyc", errlib.describe(args)], nontrivial=G_has_cycle(args["G"]))
 
 
+def run_family(ctx):
+    """deterministic cyclic families with the optimum known in closed form (errlib.cyclic_families): every instance must be
+    solved (they respect the repetition caps of the code as it is, so the open cap findings do not apply) with exactly
+    that objective"""
+    import flowpaths as fp
+    for fam in errlib.cyclic_families():
+        for k in fam["k_list"]:
+            if k is None:
+                continue
+            args = dict(G=fam["G"], flow_attr="flow", k=k, weight_type=fam["weight_type"], solver_options=dict(errlib.SOLVER))
+            rep = {"class": "kLeastAbsErrorsCycles", "family": fam["name"], "args": errlib.describe(args), "closed_form_optimum": str(fam["lae_opt"])}
+            try:
+                m = fp.kLeastAbsErrorsCycles(**errlib.clean_args(args)); m.solve()
+            except Exception as e:
+                ctx.report(f"kLeastAbsErrorsCycles raised {e!r} on family instance {fam['name']}", rep); continue
+            ctx.case(["lae-family", fam["name"], k], nontrivial=True)
+            st = m.solver.get_model_status()
+            if not m.is_solved():
+                if st == "kInfeasible":
+                    ctx.report(f"kLeastAbsErrorsCycles is infeasible on '{fam['name']}' (k={k}); k walks with zero weights exist within every repetition cap", rep)
+                else:
+                    ctx.count("E2_cyclic_family", "inconclusive:" + str(st))
+                continue
+            so = check_solution(ctx, "kLeastAbsErrorsCycles", args, m, fam["weight_type"] == int, eng="E2_cyclic_family")
+            if so is None:
+                continue
+            if abs(so - float(fam["lae_opt"])) > 1e-6:
+                sol = m.get_solution()
+                rep["solution"] = {"walks": sol["walks"], "weights": sol["weights"]}
+                ctx.report(f"kLeastAbsErrorsCycles on '{fam['name']}' (k={k}) returns total error {so}, the optimum is {fam['lae_opt']}", rep)
+            else:
+                ctx.count("E2_cyclic_family", "optimum_agrees")
+
+
 def G_has_cycle(G):
     return not nx.is_directed_acyclic_graph(G)
 
@@ -254,7 +288,7 @@ def run(ctx):
     lpdump.install()
     ctx.rule = ("kLeastAbsErrors on random DAGs (<= 6 nodes) with arbitrary non-negative weights (perturbed superpositions or random values; int / dyadic float), "
                 "k in 1..3, ignore sets, error_scaling incl. 0 and 1/2, additional starts/ends, subpath constraints, solution_weights_superset, edge and node origin; "
-                "tiny stream: <= 6 edges, weights <= 4, integer type, compared with the exhaustive optimum; cyclic stream: kLeastAbsErrorsCycles on <= 5-node digraphs. "
+                "tiny stream: <= 6 edges, weights <= 4, integer type, compared with the exhaustive optimum; cyclic stream: kLeastAbsErrorsCycles on <= 5-node digraphs; deterministic cyclic families with closed-form optimum (chain with a zero-flow SCC 1..4 hops from the heavy edge, fractional perfect decompositions needing r+1 traversals, loops whose largest weight / repetition cap is a power of two). "
                 "non-trivial = LP has more than 8 rows (at least one product block and error rows) / graph has a cycle")
     for wfun in (witness_12, witness_6):
         try:
@@ -263,6 +297,7 @@ def run(ctx):
             ctx.report(f"{wfun.__name__}: the recorded witness instance raised {e!r}", {"witness": wfun.__name__})
     run_dag(ctx, ctx.budget(300, 6000), tiny=False)
     run_dag(ctx, ctx.budget(200, 5000), tiny=True)
+    run_family(ctx)
     run_cyclic(ctx, ctx.budget(60, 1500))
 
 
